@@ -265,6 +265,25 @@ func GenReg(seed, run uint64, tier, mode string) *plan.Plan {
 				st.X = fmt.Sprintf("s%d", pr[1])
 			}
 		}
+		if (st.Op == "Sqrt" || st.Op == "Cbrt") && st.D != "" && r.Chance(1, 3) {
+			// exact roots: the operand is loaded from a literal exact power
+			k := 2
+			if st.Op == "Cbrt" {
+				k = 3
+			}
+			src := st.D
+			if !aliasOn {
+				src = reg((d + 1) % nregs)
+			}
+			tk.Steps = append(tk.Steps, plan.Step{Op: "DSetString", Ctx: st.Ctx, D: src, S: ExactPowerText(r, k)})
+			st.X = src
+		} else if aliasOn && st.D != "" && (st.X == st.D || st.Y == st.D) && len(tk.Steps) > 0 && tk.Steps[len(tk.Steps)-1].Op != "DSet" && r.Chance(1, 2) {
+			// registers are overwritten all the time and soon hold only ordinary
+			// results; an aliased destination is therefore often first loaded
+			// with an operand from the shared pool (boundary values, exact powers,
+			// heap-backed coefficients ...)
+			tk.Steps = append(tk.Steps, plan.Step{Op: "DSet", Ctx: st.Ctx, D: st.D, X: fmt.Sprintf("s%d", r.Intn(nshared))})
+		}
 		if poisonOn && st.D != "" {
 			switch {
 			case r.Chance(1, 2):
